@@ -10,10 +10,16 @@
  *          failure goes unnoticed)
  *
  * The whole client (create processor, begin/append/end per file, finish, destroy) runs as modelled thread 0;
- * the workers are created by thread_pool_create.  Prints
+ * the workers are created by thread_pool_create.  The fake compressor has a scheduling point in the middle of
+ * do_block (so callbacks of different workers overlap) and a busy flag per compressor *object*: since the block
+ * processor gives every worker its own copy (sqfs_copy in block_processor.c), the flag is never found set.
+ * With probability 1/4 (decided by the seed) the schedule also contains spurious wake-ups.  Prints
  *   rc=<first non-zero API result or 0> at=<call that failed or -> dl=<1 if the scheduler found no runnable
  *   thread while one was still alive> steps=<n> sz=<output size> out=<fnv1a of output bytes> ino=<fnv1a over the
  *   inodes' sizes and block lists> mtx=<1 if a mutex was held at a scheduling point> cerr=<SQFS_ERROR_COMPRESSOR>
+ *   shared=<1 if two overlapping do_block calls used the same compressor object> cfail=<number of do_block calls
+ *   that returned an error> pst=<pool->get_status() after finish, before the processor is destroyed>
+ *   spur=<spurious wake-ups taken>
  * When linked against a library built with threadpool_serial.c (no scheduler involvement: thread 0 never blocks)
  * the same line gives the reference result.
  */
@@ -26,6 +32,7 @@
 #include "sqfs/error.h"
 #include "sqfs/block.h"
 #include "sqfs/io.h"
+#include "lib/sqfs/src/block_processor/internal.h"
 
 #include <stdio.h>
 #include <stdlib.h>
@@ -37,7 +44,8 @@
 #endif
 
 /* ------------------------------------------------------------------ fake compressor */
-typedef struct { sqfs_compressor_t base; } fake_cmp_t;
+typedef struct { sqfs_compressor_t base; int busy; } fake_cmp_t;
+static int g_shared, g_cmp_failed, g_pool_status, g_nspur;
 
 static void fake_get_configuration(const sqfs_compressor_t *c, sqfs_compressor_config_t *cfg)
 {
@@ -49,12 +57,15 @@ static int fake_read_options(sqfs_compressor_t *c, sqfs_file_t *f) { (void)c; (v
 
 static int g_nofail;             /* `bpn` lines: a block starting with 0xEE is merely incompressible */
 
-static sqfs_s32 fake_do_block(sqfs_compressor_t *c, const sqfs_u8 *in, sqfs_u32 size, sqfs_u8 *out, sqfs_u32 outsize)
+static sqfs_s32 fake_do_block_inner(const sqfs_u8 *in, sqfs_u32 size, sqfs_u8 *out, sqfs_u32 outsize)
 {
 	sqfs_u32 i;
-	(void)c;
-	if (size > 0 && in[0] == 0xEE)
-		return g_nofail ? 0 : SQFS_ERROR_COMPRESSOR;
+	if (size > 0 && in[0] == 0xEE) {
+		if (g_nofail)
+			return 0;
+		++g_cmp_failed;
+		return SQFS_ERROR_COMPRESSOR;
+	}
 	if (size < 8 || size / 2 > outsize)
 		return 0;
 	for (i = 1; i < size; i += 2)
@@ -65,12 +76,28 @@ static sqfs_s32 fake_do_block(sqfs_compressor_t *c, const sqfs_u8 *in, sqfs_u32 
 	return (sqfs_s32)((size + 1) / 2);
 }
 
+static sqfs_s32 fake_do_block(sqfs_compressor_t *c, const sqfs_u8 *in, sqfs_u32 size, sqfs_u8 *out, sqfs_u32 outsize)
+{
+	fake_cmp_t *fc = (fake_cmp_t *)c;
+	sqfs_s32 r;
+	if (fc->busy)
+		g_shared = 1;                    /* another worker is inside do_block of this very object */
+	fc->busy = 1;
+	if (vs_self() > 0)
+		vs_yield("cmp");                 /* a worker can be pre-empted in the middle of a block */
+	r = fake_do_block_inner(in, size, out, outsize);
+	fc->busy = 0;
+	return r;
+}
+
 static void fake_destroy(sqfs_object_t *o) { free(o); }
 static sqfs_object_t *fake_copy(const sqfs_object_t *o)
 {
 	fake_cmp_t *n = malloc(sizeof(*n));
-	if (n)
+	if (n) {
 		memcpy(n, o, sizeof(*n));
+		n->busy = 0;
+	}
 	return (sqfs_object_t *)n;
 }
 
@@ -260,6 +287,7 @@ static void *client(void *arg)
 				h_ino = fnv(h_ino, &inodes[i]->extra[k], sizeof(inodes[i]->extra[k]));
 		}
 	}
+	g_pool_status = proc->pool->get_status(proc->pool);
 	sqfs_drop(proc);               /* destroys the pool: joins the workers */
 	out_size = mf->size;
 	h_out = fnv(1469598103934665603ULL, mf->buf, mf->size);
@@ -281,7 +309,7 @@ static void run_line(char *line)
 	     *a4 = strtok_r(NULL, " \n", &save);
 	uint64_t x;
 	unsigned long steps0;
-	int dl = 0, mtx = 0, guard = 0;
+	int dl = 0, mtx = 0, guard = 0, with_spur;
 	if (!cmd || (strcmp(cmd, "bp") != 0 && strcmp(cmd, "bpn") != 0) || !a1 || !a2 || !a3 || !a4) {
 		puts("bad-op");
 		return;
@@ -290,6 +318,7 @@ static void run_line(char *line)
 	g_workers = atoi(a1);
 	g_backlog = atoi(a2);
 	x = strtoull(a3, NULL, 10) * 2862933555777941757ULL + 3037000493ULL;
+	with_spur = strtoull(a3, NULL, 10) % 4 == 1;
 	g_blocksize = (size_t)atoi(a4);
 	nfiles = 0;
 	while ((tok = strtok_r(NULL, " \n", &save)) != NULL && nfiles < MAXFILES) {
@@ -305,6 +334,8 @@ static void run_line(char *line)
 		++nfiles;
 	}
 	g_rc = 0;
+	g_shared = g_cmp_failed = g_nspur = 0;
+	g_pool_status = 12345;
 	g_at = "-";
 	h_out = h_ino = 0;
 	out_size = 0;
@@ -326,12 +357,25 @@ static void run_line(char *line)
 			break;
 		}
 		x = x * 6364136223846793005ULL + 1442695040888963407ULL;
+		if (with_spur && (x >> 33) % 100 < 8) {
+			int cand[64], m = 0;
+			for (i = 0; i < nt && i < 64; ++i)
+				if (vs_kind(i) == VS_COND && !vs_signalled(i))
+					cand[m++] = i;
+			x = x * 6364136223846793005ULL + 1442695040888963407ULL;
+			if (m > 0 && vs_step(cand[(x >> 33) % (unsigned)m], 1) == 0) {
+				++g_nspur;
+				continue;
+			}
+		}
+		x = x * 6364136223846793005ULL + 1442695040888963407ULL;
 		vs_step(en[(x >> 33) % (unsigned)n], 0);
 		if (++guard > 50000000)
 			break;
 	}
-	printf("rc=%d at=%s dl=%d steps=%lu sz=%zu out=%016llx ino=%016llx mtx=%d cerr=%d\n", g_rc, g_at, dl, vs_steps() - steps0,
-	       out_size, (unsigned long long)h_out, (unsigned long long)h_ino, mtx, (int)SQFS_ERROR_COMPRESSOR);
+	printf("rc=%d at=%s dl=%d steps=%lu sz=%zu out=%016llx ino=%016llx mtx=%d cerr=%d shared=%d cfail=%d pst=%d spur=%d\n", g_rc, g_at, dl,
+	       vs_steps() - steps0, out_size, (unsigned long long)h_out, (unsigned long long)h_ino, mtx, (int)SQFS_ERROR_COMPRESSOR,
+	       g_shared, g_cmp_failed, g_pool_status, g_nspur);
 	vs_kill_all();
 }
 
